@@ -88,14 +88,130 @@ fn ref_first_chunk(msg: &[u8], at: usize) -> Option<usize> {
     }
 }
 
-fn same_wire(name: &Name, e: &RefName) {
-    let w = name.wire_repr();
-    assert!(w.len() == e.len, "[C15] decoded name has the reference decoder's wire length");
+/// Capacity of the harness's name / RDATA buffers.  Anything longer is
+/// reported as undecodable by the reference, which can only make an assertion
+/// fail ("accepts what the reference rejects"), never pass.
+const NM_MAX: usize = 48;
+
+/// RFC 1035 section 4.1.4 name decoder in out-parameter form: appends the
+/// uncompressed wire form of the name at `start` to `out[..*out_len]` and
+/// returns the number of octets the name occupies at `start` (labels up to and
+/// including the root label or the first pointer).  Labels are at most 63
+/// octets, a name at most 255; a pointer must point strictly before the start
+/// of the run of labels it ends ("a prior occurrence"); a non-root label must
+/// be followed by at least one more octet inside `buf`.
+///
+/// Same rules as kani_common::ref_name (c15_oracle_agrees_with_common5/6 check
+/// the two against each other on every small buffer).  It exists because
+/// ref_name returns its result as `Result<RefName, _>`, whose layout (niche in
+/// a bool next to two 40-octet arrays) makes CBMC lose every constant in it:
+/// all offsets derived from it become symbolic and each later loop unwinds to
+/// the bound (measured: the SOA skeleton did not finish in 20 min).  Scalars
+/// returned and written through `&mut` stay constant.
+fn ref_name_into(buf: &[u8], start: usize, out: &mut [u8; NM_MAX], out_len: &mut usize, used_ptr: &mut bool) -> Option<usize> {
+    let mut pos = start;
+    let mut chunk_start = start;
+    let mut first_chunk = 0usize;
+    let mut in_first = true;
+    let mut name_len = 0usize;
+    loop {
+        if pos >= buf.len() {
+            return None;
+        }
+        let b = buf[pos];
+        if b >= 0xc0 {
+            if pos + 1 >= buf.len() {
+                return None;
+            }
+            let target = (((b & 0x3f) as usize) << 8) | buf[pos + 1] as usize;
+            if target >= chunk_start {
+                return None;
+            }
+            if in_first {
+                first_chunk = pos + 2 - start;
+                in_first = false;
+            }
+            *used_ptr = true;
+            pos = target;
+            chunk_start = target;
+        } else if b > 63 {
+            return None;
+        } else {
+            let l = b as usize;
+            if name_len + 1 + l > 255 || *out_len + 1 + l > NM_MAX {
+                return None;
+            }
+            if l != 0 && pos + 1 + l >= buf.len() {
+                return None;
+            }
+            out[*out_len] = b;
+            *out_len += 1;
+            let mut i = 0;
+            while i < l {
+                out[*out_len] = buf[pos + 1 + i];
+                *out_len += 1;
+                i += 1;
+            }
+            name_len += 1 + l;
+            pos += 1 + l;
+            if l == 0 {
+                if in_first {
+                    first_chunk = pos - start;
+                }
+                return Some(first_chunk);
+            }
+        }
+    }
+}
+
+fn same_octets(got: &[u8], exp: &[u8; NM_MAX], exp_len: usize) {
+    assert!(got.len() == exp_len, "[C15] decoded name / RDATA has the reference decoder's length");
     let mut i = 0;
-    while i < e.len {
-        assert!(w[i] == e.wire[i], "[C15] decoded name has the reference decoder's wire octets");
+    while i < exp_len {
+        assert!(got[i] == exp[i], "[C15] decoded name / RDATA has the reference decoder's octets");
         i += 1;
     }
+}
+
+fn oracle_agrees<const N: usize>() {
+    let buf: [u8; N] = kani::any();
+    let start: usize = kani::any();
+    kani::assume(start <= N + 1);
+    let mut out = [0u8; NM_MAX];
+    let mut out_len = 0usize;
+    let mut ptr = false;
+    let mine = ref_name_into(&buf, start, &mut out, &mut out_len, &mut ptr);
+    match (mine, ref_name(&buf, start)) {
+        (Some(fc), Ok(n)) => {
+            assert!(fc == n.first_chunk && out_len == n.len && ptr == n.used_pointer, "[C15] (oracle) both reference decoders report the same lengths");
+            let mut i = 0;
+            while i < n.len {
+                assert!(out[i] == n.wire[i], "[C15] (oracle) both reference decoders produce the same name");
+                i += 1;
+            }
+            kani::cover!(ptr && n.len > N, "name longer than the buffer (overlapping chunks reached through a pointer)");
+        }
+        (None, Err(_)) => {}
+        _ => assert!(false, "[C15] (oracle) the two reference decoders disagree on acceptance"),
+    }
+}
+
+// @harness props=C15 panics=C15,C01 kani="--no-assertion-reach-checks" tier=quick mem=4 t=900 fn="(oracle only) kani_reader::ref_name_into vs kani_common::ref_name"
+//   bound="every buffer of exactly 5 octets, every start offset 0..=6; unwind 16 (chunks reached through pointers may overlap, so a decoded name can be longer than the buffer)"
+//   sym="buf:[u8;5], start<=6"
+#[kani::proof]
+#[kani::unwind(16)]
+fn c15_oracle_agrees_with_common5() {
+    oracle_agrees::<5>();
+}
+
+// @harness props=C15 panics=C15,C01 kani="--no-assertion-reach-checks" tier=thorough mem=8 t=1800 fn="(oracle only) kani_reader::ref_name_into vs kani_common::ref_name"
+//   bound="every buffer of exactly 6 octets, every start offset 0..=7; unwind 20 ([4,1,x,0xc0,0,0] from offset 1 decodes to 8 octets)"
+//   sym="buf:[u8;6], start<=7"
+#[kani::proof]
+#[kani::unwind(20)]
+fn c15_oracle_agrees_with_common6() {
+    oracle_agrees::<6>();
 }
 
 // --------------------------------------------------------------------------
@@ -321,6 +437,74 @@ fn c15_peek_rr_skip_any28() {
     rr_any::<28, true, SKIP>();
 }
 
+// @harness props=C15 panics=C15,C01 kani="--no-assertion-reach-checks" tier=thorough mem=4 t=1800 fn="Reader::skip_question"
+//   bound="every message of every length 12..=48, all octets symbolic, read position 12; unwind 38"
+//   sym="buf:[u8;48], len in 12..=48"
+#[kani::proof]
+#[kani::unwind(38)]
+fn c15_skip_question_any48() {
+    skip_question_any::<48>();
+}
+
+// @harness props=C15 panics=C15,C01 kani="--no-assertion-reach-checks" tier=thorough mem=4 t=1800 fn="Reader::skip_rr"
+//   bound="every message of every length 12..=48, all octets symbolic, read position 12; unwind 38"
+//   sym="buf:[u8;48], len in 12..=48"
+#[kani::proof]
+#[kani::unwind(38)]
+fn c15_skip_rr_any48() {
+    rr_any::<48, false, DROP>();
+}
+
+// @harness props=C15 panics=C15,C01 kani="--no-assertion-reach-checks" tier=thorough mem=4 t=1800
+//   fn="Reader::peek_rr,PeekRr::rr_type,PeekRr::class,PeekRr::ttl,PeekRr::rdlength,PeekRr::message_to_rr,PeekRr::skip"
+//   bound="every message of every length 12..=48, all octets symbolic, read position 12; unwind 38"
+//   sym="buf:[u8;48], len in 12..=48"
+#[kani::proof]
+#[kani::unwind(38)]
+fn c15_peek_rr_skip_any48() {
+    rr_any::<48, true, SKIP>();
+}
+
+/// skip_question, then two record operations, on every message: the read
+/// position of the second and third operation is whatever the earlier ones
+/// left (any offset up to the end of the message).
+fn seq_any<const NMAX: usize>() {
+    let buf: [u8; NMAX] = kani::any();
+    let len: usize = kani::any();
+    kani::assume(len >= 12 && len <= NMAX);
+    let msg = &buf[..len];
+    let mut r = Reader::try_from(msg).unwrap();
+    let q_end = match ref_first_chunk(msg, 12) {
+        Some(fc) => ref_question_end(len, 12, fc),
+        None => None,
+    };
+    let q = r.skip_question().is_ok();
+    let after = r.message_to_cursor().len();
+    match q_end {
+        Some(end) => assert!(q && after == end, "[C15] skip_question advances by exactly the question's length"),
+        None => assert!(!q && after == 12, "[C15] a failed skip_question leaves the read position unchanged"),
+    }
+    let r1 = skip_or_peek_at::<true, SKIP>(msg, &mut r);
+    let r2 = skip_or_peek_at::<false, DROP>(msg, &mut r);
+    let r3 = skip_or_peek_at::<true, DROP>(msg, &mut r);
+    assert!(r.at_eom() == (r.message_to_cursor().len() == len), "[C15] at_eom iff the read position is the message length");
+    kani::cover!(
+        q && r1.ok && r1.has_rdata && r2.ok && r2.to_eom && msg[12] != 0 && !r3.ok,
+        "non-root question skipped, two records skipped up to the end of the message, a third refused"
+    );
+    kani::cover!(q && r1.ok && r2.late_err, "second record's owner fine, frame cut short: refused after two successful operations");
+}
+
+// @harness props=C15 panics=C15,C01 kani="--no-assertion-reach-checks" tier=quick mem=4 t=1200
+//   fn="Reader::skip_question,Reader::peek_rr,PeekRr::skip,Reader::skip_rr,Reader::at_eom,PeekRr accessors"
+//   bound="every message of every length 12..=40, all octets symbolic; skip_question, peek_rr+skip, skip_rr, peek_rr+drop in sequence (each from wherever the previous one stopped); unwind 30"
+//   sym="buf:[u8;40], len in 12..=40"
+#[kani::proof]
+#[kani::unwind(30)]
+fn c15_seq_skip_any40() {
+    seq_any::<40>();
+}
+
 // --------------------------------------------------------------------------
 // allocating operations (names are decoded) on message skeletons
 // --------------------------------------------------------------------------
@@ -341,36 +525,36 @@ fn read_question_at(msg: &[u8], r: &mut Reader) -> Out {
     let at = r.message_to_cursor().len();
     let res = r.read_question();
     let after = r.message_to_cursor().len();
-    let en = ref_name(msg, at);
+    let mut qn = [0u8; NM_MAX];
+    let mut qn_len = 0usize;
+    let mut qn_ptr = false;
+    let en = ref_name_into(msg, at, &mut qn, &mut qn_len, &mut qn_ptr);
     let mut out = NOTHING;
     match (res, en) {
-        (Ok(q), Ok(n)) => {
-            match ref_question_end(len, at, n.first_chunk) {
+        (Ok(q), Some(fc)) => {
+            match ref_question_end(len, at, fc) {
                 Some(end) => {
                     assert!(after == end, "[C15] read_question advances by exactly the question's length");
-                    same_wire(&q.qname, &n);
-                    assert!(u16::from(q.qtype) == be16(msg, at + n.first_chunk), "[C15] QTYPE is the two octets after the QNAME");
-                    assert!(u16::from(q.qclass) == be16(msg, at + n.first_chunk + 2), "[C15] QCLASS is the two octets after the QTYPE");
+                    same_octets(q.qname.wire_repr(), &qn, qn_len);
+                    assert!(u16::from(q.qtype) == be16(msg, at + fc), "[C15] QTYPE is the two octets after the QNAME");
+                    assert!(u16::from(q.qclass) == be16(msg, at + fc + 2), "[C15] QCLASS is the two octets after the QTYPE");
                     out.ok = true;
-                    out.name_ptr = n.used_pointer;
+                    out.name_ptr = qn_ptr;
                     out.to_eom = end == len;
                 }
                 None => assert!(false, "[C15] read_question accepts a question whose QTYPE/QCLASS are not inside the message"),
             }
             core::mem::forget(q);
         }
-        (Err(_), Ok(n)) => {
-            assert!(
-                ref_question_end(len, at, n.first_chunk).is_none(),
-                "[C15] read_question refuses a question the reference decodes"
-            );
+        (Err(_), Some(fc)) => {
+            assert!(ref_question_end(len, at, fc).is_none(), "[C15] read_question refuses a question the reference decodes");
             assert!(after == at, "[C15] a failed read_question leaves the read position unchanged");
             out.late_err = true;
         }
-        (Err(_), Err(_)) => {
+        (Err(_), None) => {
             assert!(after == at, "[C15] a failed read_question leaves the read position unchanged");
         }
-        (Ok(_), Err(_)) => assert!(false, "[C15] read_question accepts a QNAME the reference rejects"),
+        (Ok(_), None) => assert!(false, "[C15] read_question accepts a QNAME the reference rejects"),
     }
     out
 }
@@ -382,25 +566,17 @@ fn read_question_cut(msg: &[u8]) -> Out {
 
 // ---- reference RDATA ------------------------------------------------------
 
-const RD_MAX: usize = 48;
-
-struct RefRdata {
-    wire: [u8; RD_MAX],
-    len: usize,
-    /// the RDATA is handed out as the message's own octets
-    borrowed: bool,
-    used_pointer: bool,
-}
-
-fn rd_put(out: &mut RefRdata, src: &[u8], from: usize, n: usize) {
+fn rd_put(out: &mut [u8; NM_MAX], out_len: &mut usize, src: &[u8], from: usize, n: usize) -> bool {
+    if *out_len + n > NM_MAX {
+        return false;
+    }
     let mut i = 0;
     while i < n {
-        // an RDATA longer than RD_MAX makes the content comparison fail
-        // (index out of bounds in the harness), it can never pass
-        out.wire[out.len] = src[from + i];
-        out.len += 1;
+        out[*out_len] = src[from + i];
+        *out_len += 1;
         i += 1;
     }
+    true
 }
 
 /// RDATA layouts (the TYPE octets of a skeleton are concrete, so each harness
@@ -411,81 +587,65 @@ const L_MX: u8 = 2; // RFC 1035 3.3.9: 16-bit preference, one domain name
 const L_SOA: u8 = 3; // RFC 1035 3.3.13: two domain names, five 32-bit fields
 const L_A: u8 = 4; // RFC 1035 3.4.1 in IN; RFC 1034 3.6 name + 16 bits in CH; opaque elsewhere
 
-/// The RDATA a reader must hand out for the framed record: None if the RDATA
-/// is not laid out as its type prescribes.  Names may be compressed (RFC 1035
-/// 4.1.4) and are handed out uncompressed; a name must end inside the RDATA,
-/// so it is decoded in the message cut off at the RDATA's end.
-fn ref_rdata<const LAYOUT: u8>(msg: &[u8], f: &Frame) -> Option<RefRdata> {
-    let mut out = RefRdata {
-        wire: [0; RD_MAX],
-        len: 0,
-        borrowed: false,
-        used_pointer: false,
-    };
+const RD_INVALID: u8 = 0;
+const RD_OWNED: u8 = 1;
+const RD_BORROWED: u8 = 2;
+
+/// The RDATA a reader must hand out for the framed record, written to
+/// `out[..*out_len]`: RD_INVALID if the RDATA is not laid out as its type
+/// prescribes, RD_BORROWED if it is the message's own octets (no compressible
+/// name in it), RD_OWNED otherwise.  Names may be compressed (RFC 1035 4.1.4)
+/// and are handed out uncompressed; a name must end inside the RDATA, so it is
+/// decoded in the message cut off at the RDATA's end.
+fn ref_rdata<const LAYOUT: u8>(msg: &[u8], f: &Frame, out: &mut [u8; NM_MAX], out_len: &mut usize, used_ptr: &mut bool) -> u8 {
     let cut = &msg[..f.end];
     if LAYOUT == L_OPAQUE || (LAYOUT == L_A && f.class != 1 && f.class != 3) {
-        out.borrowed = true;
-        rd_put(&mut out, msg, f.rd_at, f.rdlen);
+        if !rd_put(out, out_len, msg, f.rd_at, f.rdlen) {
+            return RD_INVALID;
+        }
+        RD_BORROWED
     } else if LAYOUT == L_A && f.class == 1 {
-        if f.rdlen != 4 {
-            return None;
+        if f.rdlen != 4 || !rd_put(out, out_len, msg, f.rd_at, 4) {
+            return RD_INVALID;
         }
-        out.borrowed = true;
-        rd_put(&mut out, msg, f.rd_at, 4);
+        RD_BORROWED
     } else if LAYOUT == L_NAME {
-        let n = match ref_name(cut, f.rd_at) {
-            Ok(n) => n,
-            Err(_) => return None,
-        };
-        if n.first_chunk != f.rdlen {
-            return None;
+        match ref_name_into(cut, f.rd_at, out, out_len, used_ptr) {
+            Some(fc) if fc == f.rdlen => RD_OWNED,
+            _ => RD_INVALID,
         }
-        out.used_pointer = n.used_pointer;
-        rd_put(&mut out, &n.wire, 0, n.len);
     } else if LAYOUT == L_MX {
-        if f.rdlen < 2 {
-            return None;
+        if f.rdlen < 2 || !rd_put(out, out_len, msg, f.rd_at, 2) {
+            return RD_INVALID;
         }
-        let n = match ref_name(cut, f.rd_at + 2) {
-            Ok(n) => n,
-            Err(_) => return None,
-        };
-        if 2 + n.first_chunk != f.rdlen {
-            return None;
+        match ref_name_into(cut, f.rd_at + 2, out, out_len, used_ptr) {
+            Some(fc) if 2 + fc == f.rdlen => RD_OWNED,
+            _ => RD_INVALID,
         }
-        out.used_pointer = n.used_pointer;
-        rd_put(&mut out, msg, f.rd_at, 2);
-        rd_put(&mut out, &n.wire, 0, n.len);
     } else if LAYOUT == L_SOA {
-        let n1 = match ref_name(cut, f.rd_at) {
-            Ok(n) => n,
-            Err(_) => return None,
+        let fc1 = match ref_name_into(cut, f.rd_at, out, out_len, used_ptr) {
+            Some(fc) => fc,
+            None => return RD_INVALID,
         };
-        let n2 = match ref_name(cut, f.rd_at + n1.first_chunk) {
-            Ok(n) => n,
-            Err(_) => return None,
+        let fc2 = match ref_name_into(cut, f.rd_at + fc1, out, out_len, used_ptr) {
+            Some(fc) => fc,
+            None => return RD_INVALID,
         };
-        if n1.first_chunk + n2.first_chunk + 20 != f.rdlen {
-            return None;
+        if fc1 + fc2 + 20 != f.rdlen || !rd_put(out, out_len, msg, f.rd_at + fc1 + fc2, 20) {
+            return RD_INVALID;
         }
-        out.used_pointer = n1.used_pointer || n2.used_pointer;
-        rd_put(&mut out, &n1.wire, 0, n1.len);
-        rd_put(&mut out, &n2.wire, 0, n2.len);
-        rd_put(&mut out, msg, f.rd_at + n1.first_chunk + n2.first_chunk, 20);
+        RD_OWNED
     } else {
         // L_A in class CH: a domain name, then a 16-bit Chaos address
-        let n = match ref_name(cut, f.rd_at) {
-            Ok(n) => n,
-            Err(_) => return None,
+        let fc = match ref_name_into(cut, f.rd_at, out, out_len, used_ptr) {
+            Some(fc) => fc,
+            None => return RD_INVALID,
         };
-        if n.first_chunk + 2 != f.rdlen {
-            return None;
+        if fc + 2 != f.rdlen || !rd_put(out, out_len, msg, f.rd_at + fc, 2) {
+            return RD_INVALID;
         }
-        out.used_pointer = n.used_pointer;
-        rd_put(&mut out, &n.wire, 0, n.len);
-        rd_put(&mut out, msg, f.rd_at + n.first_chunk, 2);
+        RD_OWNED
     }
-    Some(out)
 }
 
 // ---- read_rr / peek_rr + parse / owner --------------------------------------
@@ -502,14 +662,20 @@ fn read_rr_at<const OP: u8, const LAYOUT: u8>(msg: &[u8], r: &mut Reader) -> Out
     let mut out = NOTHING;
 
     // reference: owner fully decoded, then the frame, then the RDATA
-    let en = ref_name(msg, at);
+    let mut ow = [0u8; NM_MAX];
+    let mut ow_len = 0usize;
+    let mut ow_ptr = false;
+    let en = ref_name_into(msg, at, &mut ow, &mut ow_len, &mut ow_ptr);
     let ef = match en {
-        Ok(ref n) => ref_frame(msg, at, n.first_chunk),
-        Err(_) => None,
-    };
-    let erd = match ef {
-        Some(ref f) => ref_rdata::<LAYOUT>(msg, f),
+        Some(fc) => ref_frame(msg, at, fc),
         None => None,
+    };
+    let mut rd = [0u8; NM_MAX];
+    let mut rd_len = 0usize;
+    let mut rd_ptr = false;
+    let erd = match ef {
+        Some(ref f) => ref_rdata::<LAYOUT>(msg, f, &mut rd, &mut rd_len, &mut rd_ptr),
+        None => RD_INVALID,
     };
     // reference for the peeking stage: first chunk of the owner and the frame
     let peekable = match ref_first_chunk(msg, at) {
@@ -524,16 +690,16 @@ fn read_rr_at<const OP: u8, const LAYOUT: u8>(msg: &[u8], r: &mut Reader) -> Out
             Ok(mut p) => {
                 assert!(peekable, "[C15] peek_rr accepts a record that is not inside the message");
                 if OP == PEEK_OWNER || OP == PEEK_OWNER_PARSE {
-                    match (p.owner(), &en) {
-                        (Ok(name), Ok(n)) => same_wire(name, n),
-                        (Err(_), Err(_)) => {}
-                        (Ok(_), Err(_)) => assert!(false, "[C15] PeekRr::owner accepts an owner the reference rejects"),
-                        (Err(_), Ok(_)) => assert!(false, "[C15] PeekRr::owner rejects an owner the reference accepts"),
+                    match (p.owner(), en) {
+                        (Ok(name), Some(_)) => same_octets(name.wire_repr(), &ow, ow_len),
+                        (Err(_), None) => {}
+                        (Ok(_), None) => assert!(false, "[C15] PeekRr::owner accepts an owner the reference rejects"),
+                        (Err(_), Some(_)) => assert!(false, "[C15] PeekRr::owner rejects an owner the reference accepts"),
                     }
                     // the second call returns the remembered name (or fails again)
-                    match (p.owner(), &en) {
-                        (Ok(name), Ok(n)) => same_wire(name, n),
-                        (Err(_), Err(_)) => {}
+                    match (p.owner(), en) {
+                        (Ok(name), Some(_)) => same_octets(name.wire_repr(), &ow, ow_len),
+                        (Err(_), None) => {}
                         _ => assert!(false, "[C15] a repeated PeekRr::owner call changes its answer"),
                     }
                 }
@@ -553,36 +719,31 @@ fn read_rr_at<const OP: u8, const LAYOUT: u8>(msg: &[u8], r: &mut Reader) -> Out
     let after = r.message_to_cursor().len();
     if OP == PEEK_OWNER {
         assert!(after == at, "[C15] PeekRr::owner and dropping the PeekRr leave the read position unchanged");
-        out.ok = peekable && en.is_ok();
-        out.name_ptr = matches!(en, Ok(ref n) if n.used_pointer);
-        out.late_err = peekable && en.is_err();
+        out.ok = peekable && en.is_some();
+        out.name_ptr = ow_ptr;
+        out.late_err = peekable && en.is_none();
         return out;
     }
     match got {
         Some(rr) => {
-            match (&en, &ef, &erd) {
-                (Ok(n), Some(f), Some(e)) => {
+            match (ef, erd != RD_INVALID) {
+                (Some(f), true) => {
                     assert!(after == f.end, "[C15] a successful record read advances by exactly the record's length");
-                    same_wire(&rr.owner, n);
+                    same_octets(rr.owner.wire_repr(), &ow, ow_len);
                     assert!(u16::from(rr.rr_type) == f.rtype, "[C15] TYPE equals the reference's");
                     assert!(u16::from(rr.class) == f.class, "[C15] CLASS equals the reference's");
                     assert!(u32::from(rr.ttl) == ref_ttl(f.ttl_raw), "[C15] TTL is the RFC 2181 clamp of the raw field");
                     let got_rd = rr.rdata.octets();
-                    assert!(got_rd.len() == e.len, "[C15] RDATA has the reference's length");
-                    let mut i = 0;
-                    while i < e.len {
-                        assert!(got_rd[i] == e.wire[i], "[C15] RDATA octets equal the reference's (embedded names decompressed)");
-                        i += 1;
-                    }
-                    if e.borrowed {
+                    same_octets(got_rd, &rd, rd_len);
+                    if erd == RD_BORROWED {
                         assert!(
                             matches!(rr.rdata, Cow::Borrowed(_)) && got_rd.as_ptr() == msg[f.rd_at..].as_ptr(),
                             "[C15] RDATA without compressible names is the message's own octets"
                         );
                     }
                     out.ok = true;
-                    out.name_ptr = n.used_pointer;
-                    out.rd_ptr = e.used_pointer;
+                    out.name_ptr = ow_ptr;
+                    out.rd_ptr = rd_ptr;
                     out.ttl_hi = f.ttl_raw >= 0x8000_0000;
                     out.to_eom = f.end == len;
                     out.has_rdata = f.rdlen > 0;
@@ -592,9 +753,9 @@ fn read_rr_at<const OP: u8, const LAYOUT: u8>(msg: &[u8], r: &mut Reader) -> Out
             core::mem::forget(rr);
         }
         None => {
-            assert!(erd.is_none(), "[C15] a record the reference decodes is refused");
+            assert!(erd == RD_INVALID, "[C15] a record the reference decodes is refused");
             assert!(after == at, "[C15] a failed record read leaves the read position unchanged");
-            out.late_err = en.is_ok();
+            out.late_err = en.is_some();
         }
     }
     out
@@ -1135,6 +1296,38 @@ fn c15_read_rr_soa_sk() {
     );
 }
 
+// ---- symbolic name structure (thorough) ----------------------------------------------------------
+
+// @harness props=C15 panics=C15,C01 kani="--no-assertion-reach-checks" tier=thorough mem=12 t=3000 fn="Reader::read_question,Name::try_from_compressed"
+//   bound="every 17-octet message whose 12 header octets are zero (a pointer into the header reaches a root label) and whose 5 body octets are symbolic: every QNAME structure that fits 5 octets; unwind 8"
+//   stubs="S7" sym="body:[u8;5]"
+#[kani::proof]
+#[kani::unwind(8)]
+#[kani::stub(arrayvec::ArrayVec::try_extend_from_slice, try_extend_model)]
+fn c15_read_question_body5() {
+    let d: [u8; 5] = kani::any();
+    let b = [0, 0, 0, 0, 0, 0, 0, 0, 0, 0, 0, 0, d[0], d[1], d[2], d[3], d[4]];
+    let o = read_question_cut(&b);
+    kani::cover!(o.ok && o.to_eom, "root question read");
+    kani::cover!(o.late_err, "QNAME decodes, QTYPE/QCLASS do not fit");
+}
+
+// @harness props=C15 panics=C15,C01 kani="--no-assertion-reach-checks" tier=thorough mem=12 t=3000 fn="Reader::peek_rr,PeekRr::owner,PeekRr::parse_owner,Name::try_from_compressed"
+//   bound="every 25-octet message with zero header, 3 symbolic octets where the owner starts, then [0,10, c,c, t,t,t,t, 0,0] (so whichever way the 3 octets split into owner and fixed fields, the record may or may not frame); peek_rr, owner() twice, drop; unwind 8"
+//   stubs="S7" sym="s:[u8;3], class, ttl"
+#[kani::proof]
+#[kani::unwind(8)]
+#[kani::stub(arrayvec::ArrayVec::try_extend_from_slice, try_extend_model)]
+fn c15_peek_owner_sym3() {
+    let s: [u8; 3] = kani::any();
+    let d: [u8; 6] = kani::any();
+    let b = [0, 0, 0, 0, 0, 0, 0, 0, 0, 0, 0, 0, s[0], s[1], s[2], 0, 10, d[0], d[1], d[2], d[3], d[4], d[5], 0, 0];
+    let mut r = Reader::try_from(&b[..]).unwrap();
+    let o = read_rr_at::<PEEK_OWNER, L_OPAQUE>(&b, &mut r);
+    kani::cover!(o.ok && o.name_ptr, "owner that is a pointer into the header decoded");
+    kani::cover!(o.late_err, "record frames, owner does not decode");
+}
+
 // --------------------------------------------------------------------------
 // C09 side harness: the TTL clamp over all u32
 // --------------------------------------------------------------------------
@@ -1157,4 +1350,5 @@ fn c09_ttl_clamp() {
     );
     kani::cover!((x >> 16) & 0xff != 0 && ((t >> 16) as u8) == ((x >> 16) as u8), "an OPT TTL field whose version survives the clamp");
 }
+
 
